@@ -6,6 +6,9 @@
 package c16
 
 import (
+	"sync"
+	"time"
+	_ "time/tzdata"
 	"fmt"
 	"math/rand"
 	"strings"
@@ -20,7 +23,17 @@ func init() {
 }
 
 // uc <init> <clients> <events>   (see ucops.RunUC)
+// zoneOnce: the processes that run C16's cases live in a zone other than UTC (Europe/Berlin, whose offset in year 1 — where
+// Go's zero time lies — is a local mean time with seconds: +00:53:28), as a deployment outside UTC does.  Nothing the
+// property speaks about depends on the zone a process runs in; the fake clock and every planted time stay in UTC.
+var zoneOnce sync.Once
+
 func exec(op string, args []string) []string {
+	zoneOnce.Do(func() {
+		if loc, err := time.LoadLocation("Europe/Berlin"); err == nil {
+			time.Local = loc
+		}
+	})
 	if op == "runner" && len(args) == 3 {
 		var out []string
 		if txt, ok := core.Guard(func() { out = runRunner(args[0], args[1]) }); !ok {
